@@ -4,7 +4,7 @@
 //!                    FilterResolved::is_andnot
 //!   be_slice.rs      be/mod.rs :: enum IdList, consts FILTER_*, and inside a trait shell the
 //!                    bodies of BackendTransaction::{filter2idl, filter2idl_sub}
-//! Models (everything else): Vec/Box as an arena (models/shim/arena_vec.rs), the id-list set type as a bitmask over a universe of 6 entry ids,
+//! Models (everything else): the id-list set type as a bitmask over a universe of 6 entry ids,
 //! the index layer as a table the harness fills with symbolic answers, Attribute/PartialValue as
 //! opaque ids, empty logging macros.
 #![allow(dead_code, unused_imports, unused_variables, unused_macros, static_mut_refs, unused_mut)]
@@ -119,24 +119,6 @@ pub fn trigraph_iter(v: &String) -> TrigraphIter {
 }
 
 
-macro_rules! vec {
-    ($($x:expr),* $(,)?) => {{
-        #[allow(unused_mut)]
-        let mut v = Vec::new();
-        $( v.push($x); )*
-        v
-    }};
-}
-
-pub type ArenaItem = FilterResolved;
-include!("/verif/models/shim/arena_vec.rs");
-
-impl Slot for FilterPlan {
-    type H = FilterPlan;
-    fn put(self) -> FilterPlan { self }
-    fn get<'a>(h: &'a FilterPlan) -> &'a FilterPlan { h }
-}
-
 /// Model of filter::FilterPlan, the diagnostic log of how a query was executed: a zero-sized
 /// value with constructors named like the real variants.  (The real recursive enum's drop glue
 /// makes CBMC unwind without end, and the plan is not part of the property.)
@@ -174,9 +156,38 @@ impl FilterPlan {
 include!("filter_slice.rs");
 include!("be_slice.rs");
 
+/// Induction hypothesis for child `i` (an abstract subterm, represented by the placeholder
+/// `FilterResolved::Invalid(Attribute(i))`): what its evaluation returned.
+#[derive(Clone, Copy)]
+pub struct ChildResult {
+    /// 0 AllIds, 1 Partial, 2 PartialThreshold, 3 Indexed
+    pub kind: u8,
+    pub set: u8,
+}
+pub static mut ORACLE: [ChildResult; MAX_LEAVES] = [ChildResult { kind: 0, set: 0 }; MAX_LEAVES];
+pub static mut ORACLE_CALLS: u8 = 0;
+
 pub struct Be { pub idl: IdlLayer }
 impl BackendTransaction for Be {
     fn get_idlayer(&mut self) -> &mut IdlLayer { &mut self.idl }
+    fn filter2idl(&mut self, filt: &FilterResolved, _thres: usize) -> Result<(IdList, FilterPlan), OperationError> {
+        let i = match filt {
+            FilterResolved::Invalid(a) => (a.0 as usize) % MAX_LEAVES,
+            _ => {
+                #[cfg(kani)]
+                kani::assert(false, "harness: abstract children are placeholders");
+                0
+            }
+        };
+        let c = unsafe { ORACLE_CALLS += 1; ORACLE[i] };
+        let s = IDLBitRange(c.set);
+        Ok((match c.kind {
+            0 => IdList::AllIds,
+            1 => IdList::Partial(s),
+            2 => IdList::PartialThreshold(s),
+            _ => IdList::Indexed(s),
+        }, FilterPlan::Invalid))
+    }
 }
 
 #[cfg(kani)]
